@@ -185,6 +185,31 @@ fn one(h: &H, idx: u64, inst: &Inst, rng: &mut Rng, npts: usize) {
                 let worst = dh.max(dk).max(ds);
                 h.max("library Jacobian::factors vs harness stencil (relative)", worst, || format!("{} at {lon} {lat}", inst.def));
                 h.class("jacobian-compared");
+                // the same through the latitude-first input convention (swap[0]): same factors
+                if idx % 16 != 0 {
+                    // (one case in four of those that look at the Jacobian at all)
+                } else if let Ok(op2) = ctx.op(&format!("axisswap order=2,1 | {}", inst.def)) {
+                    if let Ok(j2) = Jacobian::new(&ctx, op2, [1f64.to_degrees(), 1.0], [true, false], lib_ell(&inst.ell), Coor2D::raw(lat, lon)) {
+                        let f2 = j2.factors();
+                        let d2 = ((f2.meridional_scale - f.meridional_scale).abs() / f.meridional_scale.abs())
+                            .max((f2.parallel_scale - f.parallel_scale).abs() / f.parallel_scale.abs())
+                            .max((f2.areal_scale - f.areal_scale).abs() / f.areal_scale.abs());
+                        h.class("jacobian-compared/latitude-first");
+                        if !(d2 <= 1.0e-6) && lat.abs() < 85.0 * D2R {
+                            viol(
+                                h,
+                                idx,
+                                inst,
+                                "library-jacobian-depends-on-the-input-order",
+                                &[lon, lat],
+                                J::obj()
+                                    .set("longitude_first_h_k_s", J::coords(&[f.meridional_scale, f.parallel_scale, f.areal_scale]))
+                                    .set("latitude_first_h_k_s", J::coords(&[f2.meridional_scale, f2.parallel_scale, f2.areal_scale])),
+                            );
+                            return;
+                        }
+                    }
+                }
                 if !(worst <= 1.0e-5) && lat.abs() < 85.0 * D2R {
                     viol(
                         h,
